@@ -26,8 +26,10 @@ def model_sessions(ctx, rep, cfg, what, sample, override=None, init=None, render
 def run_property(ctx, prop, rule, p1_cfgs, session_iter, level='model_checking', classify=None):
     rep = framework.Report(ctx, level)
     rep.rule = rule
-    for cfg, what in p1_cfgs:
-        mcreplay.model_check(rep, 'MC_Session.tla', cfg, what)
+    for item in p1_cfgs:
+        cfg, what = item[0], item[1]
+        override = item[2] if len(item) > 2 and ctx.quick else None      # (cfg, what, quick-tier override)
+        mcreplay.model_check(rep, 'MC_Session.tla', cfg, what, override=override)
     sessionprop.run_sessions(ctx, rep, session_iter(rep), relevant(prop), classify=classify)
     rep.assumptions = list(ASSUME)
     return rep
